@@ -555,12 +555,53 @@ def _daliserver(run, repo, world, folder):
            "a 24-bit command is packed into a 5-byte message for a 4-byte "
            "protocol: frames that are not 16 bit must be refused before "
            "anything is sent", where(mod, fn))
-    twice = any(isinstance(n, ast.If) and unparse(n.test) ==
-                "command.sendtwice" and any("s.send(message)" in unparse(s)
-                                            for s in n.body)
-                for n in ast.walk(fn))
+    # how often the request is sent, for a send-twice command and for
+    # another one: the statements are walked with the flag fixed
+    def sends(stmts, tw):
+        n_ = 0
+        for st_ in stmts:
+            if isinstance(st_, ast.If):
+                t_ = unparse(st_.test)
+                if t_ == "command.sendtwice":
+                    n_ += sends(st_.body if tw else st_.orelse, tw)
+                elif t_ == "not command.sendtwice":
+                    n_ += sends(st_.orelse if tw else st_.body, tw)
+                elif "s.send(" in unparse(st_):
+                    raise AnalysisError(
+                        "%s: a send under `%s`; the rule counts sends under "
+                        "tests of command.sendtwice" % (Q, t_))
+            elif isinstance(st_, ast.For):
+                k_ = None
+                it_ = st_.iter
+                if isinstance(it_, ast.Call) and unparse(
+                        it_.func) == "range" and len(it_.args) == 1:
+                    a_ = it_.args[0]
+                    if isinstance(a_, ast.IfExp) and unparse(
+                            a_.test) == "command.sendtwice":
+                        a_ = a_.body if tw else a_.orelse
+                    if isinstance(a_, ast.Constant) and type(
+                            a_.value) is int:
+                        k_ = a_.value
+                inner = sends(st_.body, tw)
+                if inner and k_ is None:
+                    raise AnalysisError("%s: sends in a loop the rule "
+                                        "cannot count" % Q)
+                n_ += (k_ or 0) * inner
+            elif isinstance(st_, (ast.With, ast.Try)):
+                n_ += sends(st_.body, tw)
+                if isinstance(st_, ast.Try):
+                    n_ += sends(st_.finalbody, tw)
+            elif isinstance(st_, ast.While) and "s.send(" in unparse(st_):
+                raise AnalysisError("%s: sends in a while loop" % Q)
+            else:
+                n_ += sum(1 for c_ in ast.walk(st_) if isinstance(
+                    c_, ast.Call) and unparse(c_.func) == "s.send")
+        return n_
+    n2, n1 = sends(fn.body, True), sends(fn.body, False)
+    twice = (n2, n1) == (2, 1)
     run.ob("R-WIRE-DALISERVER", Q + "#sendtwice", twice,
-           "send-twice commands must be sent twice", where(mod, fn))
+           "send-twice commands must be sent twice and the others once "
+           "(counted: %d and %d)" % (n2, n1), where(mod, fn))
 
 
 def _atx(run, repo, world, folder):
